@@ -114,6 +114,21 @@ func (t *PageTree) Count() (int, error) {
 	if !ok {
 		return 0, fmt.Errorf("invalid /Count type: %T", countObj)
 	}
+	if count < 0 {
+		return 0, fmt.Errorf("invalid /Count value: %d", count)
+	}
+
+	// /Count is a number from the file, and callers size loops and slices by
+	// it. The page count is the number of page leaves: report that when the
+	// declared value disagrees with the tree.
+	if t.pages == nil {
+		if err := t.loadPages(); err != nil {
+			return 0, err
+		}
+	}
+	if int64(count) != int64(len(t.pages)) {
+		return len(t.pages), nil
+	}
 
 	return int(count), nil
 }
